@@ -284,8 +284,11 @@ func (self *TransparencyBinaryServerProtocol) Close() error {
 				_ = clientProtocol.Write(command)
 				_ = self.serverProtocol.FreeLockCommand(command)
 			}
+			self.glock.Lock()
+		} else {
+			self.glock.Lock()
+			self.serverProtocol.willCommands = willCommands
 		}
-		self.glock.Lock()
 	}
 
 	if self.clientProtocol != nil {
@@ -981,8 +984,11 @@ func (self *TransparencyTextServerProtocol) Close() error {
 				_ = clientProtocol.Write(command)
 				_ = self.serverProtocol.FreeLockCommand(command)
 			}
+			self.glock.Lock()
+		} else {
+			self.glock.Lock()
+			self.serverProtocol.willCommands = willCommands
 		}
-		self.glock.Lock()
 	}
 
 	if self.clientProtocol != nil {
